@@ -252,6 +252,37 @@ class Gen:
             self.commands.append(
                 ['declare-datatypes', [[name, '0']], [body]])
 
+    def declare_datatypes_group(self, k):
+        """k datatypes in one declare-datatypes command."""
+        names = [self.fresh('D') for _ in range(k)]
+        for n in names:
+            self.dts[n] = []
+        bodies = []
+        for name in names:
+            conss = []
+            for _ in range(self.r.randint(1, 3)):
+                c = self.fresh('C')
+                sels = []
+                for _ in range(self.r.choice([0, 1, 2, 3])):
+                    s = self.fresh('s')
+                    so = self.r.choice(
+                        [x for x in self.base_sorts()
+                         if x[0] != 'DT' or x[1] not in names] or [BOOL])
+                    sels.append((s, so))
+                conss.append((c, sels))
+            # a nullary constructor, placed *after* constructors with
+            # selectors half of the time
+            nul = (self.fresh('C'), [])
+            if self.r.random() < 0.5:
+                conss.append(nul)
+            else:
+                conss.insert(0, nul)
+            self.dts[name] = conss
+            bodies.append([[c] + [[s, sort_nested(so, None, self.r)]
+                                  for s, so in sels] for c, sels in conss])
+        self.commands.append(['declare-datatypes',
+                              [[n, '0'] for n in names], bodies])
+
     def declare_sort(self):
         n = self.fresh('U')
         self.usorts.append(n)
@@ -783,6 +814,8 @@ class Gen:
         if 'dt' in self.th:
             for _ in range(r.randint(1, 2)):
                 self.declare_datatype()
+            if r.random() < 0.4:
+                self.declare_datatypes_group(r.randint(2, 3))
         if 'uf' in self.th:
             if r.random() < 0.5:
                 self.declare_sort()
